@@ -14,6 +14,7 @@ RULE = (
     "copy(), one longitude changed, one latitude changed (by 1e-9..5 degrees or by one ulp), both changed, one connectivity "
     "entry changed, a padded slot turned into a corner or a corner into padding (same table shape), two corners "
     "swapped, one extra node, one extra face, same arrays under another source format, non-Grid object. "
+    "For grids built from Cartesian face vertices the expectation follows the points handed in. "
     "Non-trivial = a pair differing in exactly one lon / lat / connectivity entry or element count; distinct by case hash."
 )
 ASSUMPTIONS = [
